@@ -54,6 +54,9 @@ type Plan struct {
 	Edits [2][]Edit `json:"edits"`
 	// WriteDelay per Write call per direction (pacing).
 	WriteDelay [2]time.Duration `json:"write_delay"`
+	// WriteDelayAfter: the pacing of a direction starts only after this many bytes were written in it
+	// (0 = from the start): a fast first message, a slow second one.
+	WriteDelayAfter [2]int64 `json:"write_delay_after,omitempty"`
 	// DetectDeadlock enables the logical deadlock detector (only meaningful for strictly
 	// request/response traffic such as B2F).
 	DetectDeadlock bool `json:"detect_deadlock"`
@@ -125,9 +128,39 @@ type ModemEnd struct {
 	TxHold     time.Duration
 	held       int
 	burstStart time.Time
+	// TxWindow (alternative to TxHold): every byte written stays in the reported transmit buffer for
+	// TxWindow (a modem that needs that long to get data on the air): the reported length follows the
+	// write rate - it is high behind a fast message and falls while a slow one is written.
+	TxWindow time.Duration
+	recent   []txWrite
+}
+
+type txWrite struct {
+	t time.Time
+	n int
+}
+
+// windowNow returns the bytes written within the last TxWindow.
+func (m *ModemEnd) windowNow() int {
+	m.mu.Lock()
+	defer m.mu.Unlock()
+	now, sum, keep := time.Now(), 0, m.recent[:0]
+	for _, w := range m.recent {
+		if now.Sub(w.t) < m.TxWindow {
+			keep = append(keep, w)
+			sum += w.n
+		}
+	}
+	m.recent = keep
+	return sum
 }
 
 func (m *ModemEnd) Write(p []byte) (int, error) {
+	if m.TxWindow > 0 {
+		m.mu.Lock()
+		m.recent = append(m.recent, txWrite{time.Now(), len(p)})
+		m.mu.Unlock()
+	}
 	if m.TxHold > 0 {
 		m.mu.Lock()
 		if m.held == 0 {
@@ -179,6 +212,18 @@ func New(p Plan, record bool) (*End, *End, *Link) {
 // AsModem wraps an end as a modem with a transmit buffer.
 func AsModem(e *End) *ModemEnd { return &ModemEnd{End: e} }
 
+// TxBufferOnly is a modem connection that reports its transmit buffer but has no Flush (transport.TxBuffer
+// without transport.Flusher / transport.Robust).
+type TxBufferOnly struct {
+	net.Conn
+	m *ModemEnd
+}
+
+func (t TxBufferOnly) TxBufferLen() int { return t.m.TxBufferLen() }
+
+// WithoutFlush hides everything of a modem end but the connection and TxBufferLen.
+func WithoutFlush(m *ModemEnd) TxBufferOnly { return TxBufferOnly{Conn: m, m: m} }
+
 func (e *End) dirOut() int { return e.idx }     // A writes AtoB (0), B writes BtoA (1)
 func (e *End) dirIn() int  { return 1 - e.idx } // A reads BtoA
 
@@ -186,7 +231,15 @@ func (e *End) Write(p []byte) (int, error) {
 	l := e.l
 	d := e.dirOut()
 	if dl := l.plan.WriteDelay[d]; dl > 0 {
-		time.Sleep(dl)
+		slow := true
+		if after := l.plan.WriteDelayAfter[d]; after > 0 {
+			l.mu.Lock()
+			slow = l.written[d] >= after
+			l.mu.Unlock()
+		}
+		if slow {
+			time.Sleep(dl)
+		}
 	}
 	l.mu.Lock()
 	defer l.mu.Unlock()
@@ -444,6 +497,9 @@ func (m *ModemEnd) TxBufferLen() int {
 		time.Sleep(m.TxQueryDelay)
 	}
 	held, _ := m.heldNow()
+	if m.TxWindow > 0 {
+		held = max(held, m.windowNow())
+	}
 	l := m.l
 	l.mu.Lock()
 	defer l.mu.Unlock()
